@@ -205,6 +205,10 @@ func (x *Exec) invoke(st *State, ins ssa.Instruction, c *ssa.CallCommon, fnv Val
 					rv = st.Frame.Regs[res]
 				}
 				x.siteAfter(st, ins, siteName, args, rv)
+			} else if st.Frame != nil && !st.Dead && st.Frame.Caller != nil && st.Frame.Caller.Fn == x.Fn && st.Frame.Caller.Caller == nil && st.Frame.CallIns == ins {
+				// the callee was inlined: run the "after" clauses when its frame returns
+				sn, ar := siteName, args
+				st.Frame.AfterSite = func(s2 *State, rv Value) { x.siteAfter(s2, ins, sn, ar, rv) }
 			}
 		}()
 	}
@@ -361,6 +365,9 @@ func (x *Exec) doReturn(st *State, i *ssa.Return) {
 		rv = TupleV(vals)
 	}
 	st.Frame = caller
+	if f.AfterSite != nil {
+		defer f.AfterSite(st, rv)
+	}
 	switch ci := f.CallIns.(type) {
 	case *ssa.Call:
 		caller.Regs[ci] = rv
@@ -659,7 +666,7 @@ func (x *Exec) callContract(st *State, ins ssa.Instruction, fc *FuncContract, ca
 	x.applyModifies(st, env, fc, args)
 	for i, a := range args {
 		if i < len(ptypes) {
-			if m, ok := x.monObjOf(st, a, ptypes[i]); ok {
+			if m, ok := x.monObjOf(st, a, ptypes[i]); ok && st.Held[m.key()] == nil {
 				x.interfere(st, m, false)
 			}
 		}
@@ -745,14 +752,6 @@ func (x *Exec) callContract(st *State, ins ssa.Instruction, fc *FuncContract, ca
 
 // applyModifies havocs what the callee's frame condition allows it to change.
 func (x *Exec) applyModifies(st *State, env *Env, fc *FuncContract, args []Value) {
-	// map contents are exempt from frame conditions, so every call may change them
-	if !fc.Pure {
-		for k, h := range st.Heap {
-			if strings.HasPrefix(k, "map:") {
-				st.Heap[k] = Fresh("H$"+k, h.Sort)
-			}
-		}
-	}
 	if fc.ModAll {
 		st.havocAllHeap()
 		st.havocAllMem()
@@ -776,6 +775,12 @@ func (x *Exec) applyModifies(st *State, env *Env, fc *FuncContract, args []Value
 			x.havocField(st, base, e.Name)
 		case e.Kind == "ident" && e.Name == "heap":
 			st.havocAllHeap()
+		case e.Kind == "ident" && e.Name == "maps":
+			for k, h := range st.Heap {
+				if strings.HasPrefix(k, "map:") {
+					st.Heap[k] = Fresh("H$"+k, h.Sort)
+				}
+			}
 		case e.Kind == "ident" && e.Name == "allmem":
 			st.havocAllMem()
 		default:
@@ -943,6 +948,8 @@ func (x *Exec) frame() *frameSpec {
 			}
 		case e.Kind == "ident" && e.Name == "heap":
 			fs.allHeap = true
+		case e.Kind == "ident" && e.Name == "maps":
+			fs.heapType["map:"] = true
 		case e.Kind == "ident" && e.Name == "allmem":
 			fs.allMem = true
 		}
@@ -951,6 +958,9 @@ func (x *Exec) frame() *frameSpec {
 }
 
 func keyUnder(k, root string) bool {
+	if root == "map:" {
+		return strings.HasPrefix(k, "map:")
+	}
 	return k == root || strings.HasPrefix(k, root+".") || strings.HasPrefix(k, root+"#")
 }
 
@@ -960,7 +970,7 @@ func (fs *frameSpec) heapMayChange(k string, o *Term) *Term {
 		return TTrue
 	}
 	for f := range fs.heapType {
-		if keyUnder(k, f) {
+		if keyUnder(k, f) || (f == "map:" && strings.HasPrefix(k, "map:")) {
 			return TTrue
 		}
 	}
@@ -992,7 +1002,7 @@ func frameExempt(k string) bool {
 	if strings.Contains(k, "/drpcstats.Stats.") {
 		return true
 	}
-	return strings.HasPrefix(k, "box:") || strings.HasPrefix(k, "chan") || strings.HasPrefix(k, "map:")
+	return strings.HasPrefix(k, "box:") || strings.HasPrefix(k, "chan") || strings.HasPrefix(k, "gmap:")
 }
 
 // checkFrame: everything outside the declared modifies set is unchanged between base and st.
@@ -1228,6 +1238,14 @@ func (x *Exec) runGhosts(st *State, env *Env, anchor string) {
 			e = substExpr(e, x.FC.Lets)
 		}
 		v := x.materialize(env, x.eval(env, e))
+		if strings.Contains(g.LHS, "(") {
+			lhs, err := ParseExpr(g.LHS)
+			if err != nil || lhs.Kind != "call" || x.P.CS.GhostMaps[lhs.Args[0].Name] == nil {
+				x.fail("ghost update: %s is not a ghost map access", g.LHS)
+			}
+			x.ghostMapStore(env, lhs, v)
+			continue
+		}
 		if c, ok := v.(ConstV); ok {
 			if st.A.Mode == ModeInt {
 				v = Scalar{IntBig(c.V), tyMath}
